@@ -192,6 +192,9 @@ inline RobustPath* mkrobust(Tag t0, Tag t1) {
     Tag tg[2] = {t0, t1};
     rp->init(Vec2{1, 1}, 2, w, o, 1e-2, 1000, tg);
     rp->scale_width = true;
+    // extended ends of different lengths on the two elements: lengths that must follow every magnification element by element
+    rp->elements[0].end_type = EndType::Extended; rp->elements[0].end_extensions = Vec2{0.2, 0.3};
+    rp->elements[1].end_type = EndType::Extended; rp->elements[1].end_extensions = Vec2{0.4, 0.1};
     rp->segment(Vec2{5, 2}, NULL, NULL, false);
     return rp;
 }
